@@ -10,30 +10,8 @@ PROP = {
         "every call bracketed by tickets of one atomic "
         "counter; final reads of every key, in a third of the cases again after close+reopen. The recorded history "
         "is judged by the extracted lin_check (proved sound) and by an independent Go search (oracle). non-trivial = "
-        ">= 2 threads, >= 3 overlapping pairs of calls on one key, >= 1 log rotation, >= 1 read of another thread's write",
-"assumptions": ["Go's sync.Mutex/RWMutex give mutual exclusion and atomics are sequentially consistent (the LTS takes "
-                "the critical sections as atomic steps)",
-                "tickets of one atomic counter taken before the call and after the return: recorded precedence implies "
-                "real-time precedence"],
-"partial": "locality (per-key linearizability => linearizability of the whole history) is the Herlihy-Wing theorem, not "
-           "re-proved: lin_check establishes linearizable_per_key. The theorem quantifies over all interleavings of the "
-           "model's critical sections; real schedules are sampled (yield perturbation + directed delays of the rotating "
-           "goroutine and of a writer that has loaded the log pointer). Concurrent iteration of the live active table by "
-           "the flusher is one atomic step in the model. I/O errors after a record was buffered are not modelled",
-"shrink": False,
-} Added later: every case registers an observer of the log sync notifications (what the replication primary publishes as last synced sequence): the reported numbers never go back, across rotations too (the C08 clause on the replication protocol).'PROP = {
-"counts": {"quick": 40, "thorough": 4000},
-"model_input": "impl",
-"rule": "one case = 4-16 client goroutines running random put/get/delete programs on 1-4 keys against one engine "
-        "with a 64-512 byte memtable (log rotation every few writes, background flush running), 0-2 goroutines "
-        "calling FlushImMemTables, 0-1 calling TriggerCompaction, verifhook yield perturbation at every hook site, "
-        "optionally a directed delay of the rotating goroutine (writers then fail with ErrWALRotating) or of a writer "
-        "that has loaded the log pointer until the rotation has closed that log (ErrWALClosed), or of the rotation "
-        "between the sequence hand-over and the pointer swap while clients overwrite the same keys in one memtable; "
-        "every call bracketed by tickets of one atomic "
-        "counter; final reads of every key, in a third of the cases again after close+reopen. The recorded history "
-        "is judged by the extracted lin_check (proved sound) and by an independent Go search (oracle). non-trivial = "
-        ">= 2 threads, >= 3 overlapping pairs of calls on one key, >= 1 log rotation, >= 1 read of another thread's write",
+        ">= 2 threads, >= 3 overlapping pairs of calls on one key, >= 1 log rotation, >= 1 read of another thread's write"
+        " Added later: every case registers an observer of the log's sync notifications (what the replication primary publishes as last synced sequence): the reported numbers never go back, across rotations too (the clause of C08 on the replication protocol).",
 "assumptions": ["Go's sync.Mutex/RWMutex give mutual exclusion and atomics are sequentially consistent (the LTS takes "
                 "the critical sections as atomic steps)",
                 "tickets of one atomic counter taken before the call and after the return: recorded precedence implies "
